@@ -2,6 +2,7 @@
 // Histories of operations (rapidcheck, shrinking as one value) are executed against one pusher, one puller and the
 // reference model (ref/constructions.hpp SecretStream); invariants are checked after every step.
 #include "vh_main.hpp"
+#include "giant.hpp"
 #include "vh_rc.hpp"
 #include "constructions.hpp"
 using namespace vh;
@@ -243,8 +244,66 @@ void explore_lengths(Ctx &ctx) {
     }
 }
 
-bool replay(const KV &k, std::string &msg) { Case c = Case::from(k); return run(c, msg); }
+// ------------------------------------------------------------------ a chunk of 4 GiB and more (thorough tier, non-sanitizer build, first round)
+// small chunk, giant chunk (sparse message of 2^32 + 50 bytes, real ciphertext buffer), small chunk.  The giant chunk: tag byte and
+// ciphertext windows around 2^32 and at the end against the model keystream at that block; the MAC against a composition (model one-time key
+// and encrypted tag block, the construction's MAC input fed through the library's streaming Poly1305); the pushing state afterwards equals the
+// model's; the receiver pulls all three chunks, the giant one into a second real buffer whose sampled windows equal the message.
+struct GCCase { size_t len; int tag; KV kv() const { KV k; k.s("kind", "giant_chunk").u("len", len).u("tag", tag); return k; } };
+uint64_t g_giant_skipped = 0;
+bool run_giant_chunk(const GCCase &c, std::string &msg) {
+    set_mask(F_ALL);
+    char b[300];
+    if (!giant::have_memory(2 * c.len)) { g_giant_skipped++; return true; }
+    giant::Map M(c.len), C(c.len + 17), P(c.len); if (!M.ok() || !C.ok() || !P.ok()) { g_giant_skipped++; return true; }
+    M.poke();
+    Bytes key(32), ad(21); for (int i = 0; i < 32; i++) key[(size_t) i] = (uint8_t) (i * 5 + 3); for (size_t i = 0; i < ad.size(); i++) ad[i] = (uint8_t) (0x30 + i);
+    State tx, rx; unsigned char hdr[24];
+    crypto_secretstream_xchacha20poly1305_init_push(&tx, hdr, key.data());
+    ref::SecretStream mt; mt.init(key, Bytes(hdr, hdr + 24));
+    Bytes small = { 1, 2, 3, 4, 5, 6, 7 }, c1(small.size() + 17), c3(small.size() + 17); unsigned long long l = 0;
+    crypto_secretstream_xchacha20poly1305_push(&tx, c1.data(), &l, small.data(), small.size(), nullptr, 0, 0);
+    if (c1 != mt.push(small, Bytes(), 0)) { msg = "first (small) chunk differs from the model"; return false; }
+    // the giant chunk
+    if (crypto_secretstream_xchacha20poly1305_push(&tx, C.p, &l, M.p, c.len, ad.data(), ad.size(), (unsigned char) c.tag) != 0 || l != c.len + 17) { snprintf(b, sizeof b, "push of a %zu-byte message returned an error or length %llu", c.len, l); msg = b; return false; }
+    Bytes polykey = ref::chacha20_ietf_stream(mt.k, mt.nonce, 0, 32), block(64, 0); block[0] = (uint8_t) c.tag; block = ref::xor_bytes(block, ref::chacha20_ietf_stream(mt.k, mt.nonce, 1, 64));
+    if (C.p[0] != block[0]) { msg = "giant chunk: encrypted tag byte differs from the model"; return false; }
+    const size_t G = (size_t) 1 << 32;
+    for (size_t w : { (size_t) 0, G - 128, G - 64, G, (c.len - 1) / 64 * 64, c.len / 2 / 64 * 64 }) {
+        size_t n = std::min<size_t>(128, c.len - w);
+        Bytes ks = ref::chacha20_ietf_stream(mt.k, mt.nonce, (uint32_t) (2 + w / 64), n);
+        for (size_t j = 0; j < n; j++) if (C.p[1 + w + j] != (uint8_t) (M.p[w + j] ^ ks[j])) { snprintf(b, sizeof b, "giant chunk (%zu bytes): ciphertext byte %zu differs from message XOR keystream (block %zu)", c.len, w + j, 2 + (w + j) / 64); msg = b; return false; }
+    }
+    crypto_onetimeauth_state st; crypto_onetimeauth_init(&st, polykey.data());
+    static const unsigned char zero[16] = { 0 }; unsigned char le[8], want[16];
+    crypto_onetimeauth_update(&st, ad.data(), ad.size()); crypto_onetimeauth_update(&st, zero, (0x10 - ad.size()) & 0xf);
+    crypto_onetimeauth_update(&st, block.data(), 64); crypto_onetimeauth_update(&st, C.p + 1, c.len); crypto_onetimeauth_update(&st, zero, (size_t) ((0x10 - 64 + c.len) & 0xf));
+    for (int i = 0; i < 8; i++) le[i] = (unsigned char) ((uint64_t) ad.size() >> (8 * i)); crypto_onetimeauth_update(&st, le, 8);
+    for (int i = 0; i < 8; i++) le[i] = (unsigned char) ((uint64_t) (64 + c.len) >> (8 * i)); crypto_onetimeauth_update(&st, le, 8);
+    crypto_onetimeauth_final(&st, want);
+    if (memcmp(want, C.p + 1 + c.len, 16) != 0) { snprintf(b, sizeof b, "giant chunk (%zu bytes): the MAC differs from Poly1305 over the construction's MAC input (composition)", c.len); msg = b; return false; }
+    mt.advance(Bytes(want, want + 16), (uint8_t) c.tag);
+    Bytes sb = mt.state_bytes(); if (memcmp(&tx, sb.data(), sb.size()) != 0) { msg = "giant chunk: the pushing state afterwards differs from the model's (key / nonce / counter)"; return false; }
+    crypto_secretstream_xchacha20poly1305_push(&tx, c3.data(), &l, small.data(), small.size(), nullptr, 0, crypto_secretstream_xchacha20poly1305_TAG_FINAL);
+    if (c3 != mt.push(small, Bytes(), 3)) { msg = "the chunk after the giant one differs from the model"; return false; }
+    // receiver
+    unsigned char tag = 0x77, out[16]; unsigned long long ml = 0;
+    if (crypto_secretstream_xchacha20poly1305_init_pull(&rx, hdr, key.data()) != 0 || crypto_secretstream_xchacha20poly1305_pull(&rx, out, &ml, &tag, c1.data(), c1.size(), nullptr, 0) != 0 || ml != small.size()) { msg = "receiver rejects the first chunk"; return false; }
+    if (crypto_secretstream_xchacha20poly1305_pull(&rx, P.p, &ml, &tag, C.p, c.len + 17, ad.data(), ad.size()) != 0) { snprintf(b, sizeof b, "pull rejects the genuine %zu-byte chunk", c.len); msg = b; return false; }
+    if (ml != c.len || tag != (unsigned char) c.tag) { snprintf(b, sizeof b, "pull of the giant chunk reports length %llu / tag %u, expected %zu / %d", ml, tag, c.len, c.tag); msg = b; return false; }
+    for (size_t w : { (size_t) 0, (size_t) 5, G - 70, G - 1, G, G + 1, c.len - 1, c.len - 17, c.len / 2 + 3 }) if (w < c.len && P.p[w] != M.p[w]) { snprintf(b, sizeof b, "pull of the giant chunk: message byte %zu differs from the one pushed", w); msg = b; return false; }
+    if (crypto_secretstream_xchacha20poly1305_pull(&rx, out, &ml, &tag, c3.data(), c3.size(), nullptr, 0) != 0 || tag != crypto_secretstream_xchacha20poly1305_TAG_FINAL || ml != small.size() || memcmp(out, small.data(), small.size()) != 0) { msg = "receiver does not accept the chunk after the giant one"; return false; }
+    return true;
+}
+void explore_giant_chunk(Ctx &ctx) {
+    if (!ctx.thorough() || !giant::fast_build() || !giant::first_round()) { ctx.notes["giant_chunk"] = "thorough tier, non-sanitizer build, first round only"; return; }
+    uint64_t idx = 0;
+    for (int tag : { 0, 2 }) { if (!ctx.mine(idx++)) continue; GCCase c{ ((size_t) 1 << 32) + 50 + (size_t) tag, tag }; exec_case(ctx, c, run_giant_chunk, mix64(tag, c.len), true); }
+    ctx.notes["giant_chunk_skipped_no_memory"] = std::to_string(g_giant_skipped);
+}
+
+bool replay(const KV &k, std::string &msg) { if (k.gs("kind") == "giant_chunk") { GCCase c{ (size_t) k.gu("len"), (int) k.gu("tag") }; return run_giant_chunk(c, msg); } Case c = Case::from(k); return run(c, msg); }
 
 }  // namespace
 
-std::vector<Sub> vh_subs() { return { { "lengths", explore_lengths, replay }, { "histories", explore_histories, replay } }; }
+std::vector<Sub> vh_subs() { return { { "lengths", explore_lengths, replay }, { "histories", explore_histories, replay }, { "giant_chunk", explore_giant_chunk, replay } }; }
